@@ -85,6 +85,22 @@ def has_tree_semantics(tree):
     return all(has_tree_semantics(c) for c in kids)
 
 
+def number_valued(tree):
+    """the subexpression is a plain python number in the plain function (a literal or an accessed coefficient)"""
+    return tree[0] == 'num' or (tree[0] not in ('arg', 'num') and tree[0] == 'coef')
+
+
+def bitwise_on_numbers(tree):
+    """an INFIX operator that python also defines on integers (~ ^ | & >> <<) applied to number-valued subexpressions only:
+    the plain function computes python's bitwise result, the tape the geometric one (known finding F13)"""
+    if tree[0] in ('arg', 'num'):
+        return False
+    op, kids, params, form = tree
+    if form == 'infix' and op in ('reverse', 'op', 'ip', 'rp', 'sw') and all(number_valued(k) for k in kids):
+        return True
+    return any(bitwise_on_numbers(k) for k in kids)
+
+
 def in_listed_grammar(tree):
     return ops_in(tree) <= LISTED
 
